@@ -87,12 +87,13 @@ func init() {
 			if len(m.stats.Samples) < 6 {
 				m.stats.Samples = append(m.stats.Samples, fmt.Sprintf("%s: pc[%d conjuncts] => %s", label, len(m.pc), c.String()))
 			}
-			m.checkViolation(m.tt.Not(c), "assert", label, "")
+			viol := m.checkViolation(m.tt.Not(c), "assert", label, "")
 			if c.IsFalse() {
 				panic(pathEnd{"infeasible", "assert false"})
 			}
-			// continue under the assumption that the assertion holds
-			if m.feasible(c) == Unsat {
+			// continue under the assumption that the assertion holds (pc is satisfiable, so if no
+			// violating model exists pc ∧ c is satisfiable too and needs no query)
+			if viol && m.feasible(c) == Unsat {
 				panic(pathEnd{"infeasible", "assert always fails here"})
 			}
 			m.addPC(c)
